@@ -124,7 +124,29 @@ def check(ctx: Ctx) -> None:
     _check_variations(ctx)
     _check_axis_order(ctx)
     _check_falsy_zero(ctx)
+    # ------------------------------------------------------------------ C05.m
+    from ..idioms import check_range_guard
+    ctx.rule('C05.m', 'simulate(param_variation_index=i) runs variation i for exactly 0 <= i < number of variations (index 0 included): the '
+                      'guard is decided for every order position of the index', floor=1)
+    sv1 = M.func(RUNNER, 'SimulationRunner._simulate_serially_single_param_variation')
+    iv = [p_ for p_ in sv1.params if p_ != 'self'][0]
+    gi = [n for n in walk_no_nested(sv1.node) if isinstance(n, ast.If) and any(norm(x) == iv for x in ast.walk(n.test))
+          and not (n.body and isinstance(n.body[-1], ast.Raise))]
+    if len(gi) != 1:
+        ctx.error('C05.m: %s has %d guards on `%s` (cannot tell)' % (sv1.qualname, len(gi), iv))
+    # the upper landmark is whatever the index is compared with besides 0: len(<list of variations>) or a local holding it
+    ups = sorted({norm(x) for c_ in ast.walk(gi[0].test) if isinstance(c_, ast.Compare) for x in [c_.left] + list(c_.comparators)
+                  if norm(x) not in (iv, '0')})
+    if len(ups) != 1:
+        ctx.error('C05.m: the guard `%s` compares the index with %s (one upper bound expected; cannot tell)' % (norm(gi[0].test)[:60], ups))
+    N_ = ups[0]
+    check_range_guard(ctx, 'C05.m', sv1, iv, ['0', N_],
+                      {'below 0': False, 'at 0': True, 'between 0 and %s' % N_: True, 'at %s' % N_: False, 'above %s' % N_: False},
+                      'accept', 'the variations are numbered 0 .. N-1, all of them and only them can be simulated alone')
     _check_accumulators_reset(ctx)
+    from ..idioms import check_no_mutation_while_iterating, check_restores_protected
+    check_no_mutation_while_iterating(ctx, 'C05.k', [RUNNER, PAR, 'pyphysim/simulations/results.py'], floor=12)
+    check_restores_protected(ctx, 'C05.l', [RUNNER], floor=20)
     from ..idioms import check_index_sets_not_spans
     check_index_sets_not_spans(ctx, 'C05.h', ['pyphysim/simulations/results.py', PAR, RUNNER], floor=2)
     from ..idioms import check_none_tests
